@@ -767,9 +767,13 @@ def index_types_stream(R: Run, Rm, GeoBox, GeoboxTiles):
                                                                              frac_s(g.affine.f)))(gbt[idx]),
                     }
                     for ep, fn in eps.items():
+                        if not valid and ep == "crop":
+                            continue  # RoiTiles.crop with an out-of-range index is not pinned (VariableSizedTiles slices)
                         got = guarded(fn)
-                        if name == "numpy-int" and got.startswith("ERR:") and got != "ERR:IndexError":
-                            continue  # numpy integers are not an accepted spelling at this entry point
+                        not_pinned = name == "numpy-int" or (ep in ("crop", "gbt.crop") and name != "tuple")
+                        if not_pinned and got.startswith("ERR:") and got != "ERR:IndexError":
+                            continue  # spelling not accepted at this entry point (crop takes a ROI; numpy ints are
+                            # no `int`): rejecting is fine, answering with another tile is not
                         if name == "tuple" and ep == "get":
                             R.corr(f"c04 t2 get {ty} {tx} {enc(r)} {enc(c)}", lambda: got, sig="t2-get|index-grid")
                         if name == "tuple" and ep == "tile_shape":
@@ -849,7 +853,7 @@ def assembler_held(R: Run, BlockAssembler):
         if lead or trail:                          # all planes, one after the other, as planes_yx suggests
             for plane in list(asm.planes_yx()):
                 try:
-                    xx = asm[plane]
+                    xx = asm[plane] if fill is None else asm.extract(fill, roi=plane)
                 except Exception as e:  # pylint: disable=broad-except
                     R.oracle(False, "assembler-raises", dict(case, plane=str(plane)), repr(e))
                     continue
